@@ -650,7 +650,7 @@ class World:
         try:
             if f["kind"] == "list" and type(val) is list:
                 val.append("<appended by the caller after the call>")
-            elif f["kind"] == "dict" and type(val) is dict and f["valf"]["kind"] != "nofield":
+            elif f["kind"] == "dict" and type(val) is dict:
                 val["<added by the caller after the call>"] = 1
         except Exception:  # noqa
             pass
